@@ -585,8 +585,11 @@ def _select(ctx, progs, forced=()):
     if quick and len(hand_keys) > 4:
         # quick: four hand-written programs per run (rotating with the seed); all of them get the stage-1 checks anyway
         forced_hand = [k for k in hand_keys if k in forced_by]
-        rot = [hand_keys[(ctx.seed * 3 + j) % len(hand_keys)] for j in range(3)]
-        hand_keys = sorted(set(rot + forced_hand))
+        # the istore/iload program is in every run: its tie against the real back end pins the operand order of `istore`
+        pinned = [k for k in hand_keys if k[0] == "hand:immutable_ops"]
+        others = [k for k in hand_keys if k not in pinned]
+        rot = [others[(ctx.seed * 3 + j) % len(others)] for j in range(3 - len(pinned))]
+        hand_keys = pinned + sorted(set(rot + forced_hand) - set(pinned))
     for k in hand_keys:
         by_group[k].sort(key=lambda s: s["idx"])
     keys = sorted(k for k in by_group if k[1] != "hand")
@@ -826,7 +829,7 @@ def _tie(ctx, progs, g, stats, tag, which="final"):
                                     "vrun_and_evm": _show(ob)["status"] + " " + ob["data"].hex()[:64]})
             continue
         stats["tie_mismatch"] += 1
-        arb = None
+        arb = "no legacy reference for this program"
         if ref_code is not None:
             rv = evm_run(ref_code, g.inputs[i])
             arb = evm_vs_obs(rv, ob) if rv is not None else "legacy code not deployable"
